@@ -108,6 +108,8 @@ func scenarioProxySched(c *vrun.Ctx) {
 				res.Headers = vnet.H{{"Cache-Control", "no-store"}}
 			case "status-500":
 				res.Status = 500
+			case "empty-body":
+				res.Size = 0 // a cacheable 200 whose body is empty
 			}
 			env.origin.Put(uri, res)
 			raw := rawRequest("GET", uri, nil, "")
@@ -263,7 +265,9 @@ func scenarioProxySched(c *vrun.Ctx) {
 			}
 			// (also with a client that hangs up: "a client that disconnects never changes what the others
 			// receive", and the one fetch is still the only one)
-			if p.Prop == "C05" && p.Outcome == "cacheable" && p.Evictor == "" && p.Overwrite == "" {
+			// (an empty body is storable on the memory backend only: the file backend refuses it by design, which
+			// makes the answer "turn out not to be cacheable" there, and then every client fetches for itself)
+			if p.Prop == "C05" && (p.Outcome == "cacheable" || (p.Outcome == "empty-body" && p.Backend == "memory")) && p.Evictor == "" && p.Overwrite == "" {
 				want := 1
 				if p.Start == "fresh" {
 					want = 0
